@@ -819,15 +819,11 @@ class UnaryOp(Expr):
         else:
             raise InternalError('Unknown unary operator')
 
-        if self.arg.type == Type.INTEGER:
-            max_positive_int = 2**15 - 1
-            max_negative_int = -2**15
-        else:
-            max_positive_int = 2**31 - 1
-            max_negative_int = -2**31
-
-        if value > max_positive_int or value < max_negative_int:
-            value = max_negative_int
+        # the result has the type the operator yields (NOT makes an
+        # INTEGER or LONG); an integral result out of range overflows
+        # at run time, so it must not be folded into another value
+        if self.type.is_integral and not self.type.can_hold(value):
+            raise OverflowError
 
         return value
 
